@@ -1,7 +1,8 @@
 --------------------------- MODULE LazyIndexTrace ---------------------------
 (* [[{act: {op, args: [...]}, lazy, explicit, again, loaded: [dirs], content_ok}]]                          *)
 (* lazy / explicit / again = what the lazy index, the explicit index and the lazy index asked a second time  *)
-(* answered (JSON values compared for equality); loaded = the lazy directories expanded after the call.      *)
+(* answered (JSON values compared for equality); loaded = the lazy directories expanded after the call;     *)
+(* reloads = directory objects read from storage by the repeated call.                                      *)
 EXTENDS MC_LazyIndex, Json, IOUtils, SequencesExt
 Traces == JsonDeserialize(IOEnv.TRACE_FILE)
 VARIABLES tid, l
@@ -33,6 +34,8 @@ Judge ==
     LET op == Ev.act.op IN
     /\ (C17_Transparent(Ev.lazy, Ev.explicit) \/ Say("VERDICT", "NotTransparent:" \o op))
     /\ (C17_Idempotent(Ev.lazy, Ev.again) \/ Say("VERDICT", "LoadingNotIdempotent:" \o op))
+    \* ... and a directory that was expanded stays expanded: the repeated call reads no directory object from storage
+    /\ (Ev.reloads = 0 \/ Say("VERDICT", "LoadingNotIdempotent:reloaded-from-storage"))
     /\ (op = "ViewIter" => (C17_ViewExact(A(1), KeysOf(Ev.lazy)) \/ Say("VERDICT", "ViewNotExact")))
     /\ (op = "ViewLs" => (KeysOf(Ev.lazy) = RefViewLs(A(1), A(2)) \/ Say("VERDICT", "ViewLsNotExact")))
     /\ (op = "FsCat" => (Ev.content_ok \/ Say("VERDICT", "AdaptorBytesDifferFromStorage")))
